@@ -157,6 +157,69 @@ func runC08(e *core.Env) error {
 		e.Add(core.Case{Op: strings.Join(ops, "\n"), Impl: strings.Join(outs, "\n"), Nontrivial: nh0 > 0, Tags: []string{"headcache", fmt.Sprintf("maxreads=%d", maxreads)}, Key: fmt.Sprintf("head %d %d", s, e.Seed)})
 		e.Add(core.Case{Impl: verdict, Spec: "ok", Key: fmt.Sprintf("head-o %d", s), Tags: []string{"headcache-oracle"}})
 	}
+	// ---- (1c) eth.Logs.Add: attaches in any order with any repeats (what several callers with different
+	// filters do to one transaction of a shared cached block) against the model's addLog and the set oracle
+	for s := 0; s < e.N(300, 6000); s++ {
+		rr := r.Fork()
+		var ls eth.Logs
+		var initIdx, addIdx []string
+		seen := map[uint64]bool{}
+		nInit := rr.Intn(4)
+		span := uint64(4 + rr.Intn(9))
+		mkLog := func(i uint64) *eth.Log {
+			return &eth.Log{Idx: eth.Uint64(i), Address: eth.Bytes{byte(i), 0xaa}, Topics: []eth.Bytes{{byte(i)}}, Data: eth.Bytes{byte(i), byte(i >> 8)}}
+		}
+		for len(initIdx) < nInit {
+			i := uint64(rr.Intn(int(span)))
+			if !seen[i] {
+				seen[i] = true
+				ls.Add(mkLog(i))
+				initIdx = append(initIdx, fmt.Sprint(i))
+			}
+		}
+		want := map[uint64]bool{}
+		for k := range seen {
+			want[k] = true
+		}
+		lower := false
+		for i := 0; i < 1+rr.Intn(10); i++ {
+			x := uint64(rr.Intn(int(span)))
+			if len(ls) > 0 && x < uint64(ls[len(ls)-1].Idx) && !want[x] {
+				lower = true // a new log with a smaller index than the last one held
+			}
+			ls.Add(mkLog(x))
+			want[x] = true
+			addIdx = append(addIdx, fmt.Sprint(x))
+		}
+		var got []string
+		verdict := "ok"
+		have := map[uint64]bool{}
+		for _, l := range ls {
+			got = append(got, fmt.Sprint(uint64(l.Idx)))
+			if have[uint64(l.Idx)] {
+				verdict = fmt.Sprintf("log index %d held twice", uint64(l.Idx))
+			}
+			have[uint64(l.Idx)] = true
+			if len(l.Data) != 2 || l.Data[0] != byte(l.Idx) || len(l.Address) != 2 || l.Address[0] != byte(l.Idx) || len(l.Topics) != 1 {
+				verdict = fmt.Sprintf("log %d does not carry its own address/topics/data", uint64(l.Idx))
+			}
+		}
+		for k := range want {
+			if !have[k] && verdict == "ok" {
+				verdict = fmt.Sprintf("log index %d was attached but is not held (lost)", k)
+			}
+		}
+		lj := func(x []string) string {
+			if len(x) == 0 {
+				return "_"
+			}
+			return strings.Join(x, ",")
+		}
+		e.Add(core.Case{Op: fmt.Sprintf("logsadd %s %s", lj(initIdx), lj(addIdx)), Impl: "ok " + strings.Join(got, ","), Nontrivial: len(addIdx) > 1,
+			Tags: []string{"logs-add", fmt.Sprintf("lower-index-later=%v", lower)}})
+		e.Add(core.Case{Impl: verdict, Spec: "ok", Key: fmt.Sprintf("logsadd-o %s %s", lj(initIdx), lj(addIdx)), Nontrivial: lower, Tags: []string{"logs-add-oracle"},
+			Detail: map[string]any{"held": initIdx, "attached": addIdx, "result": got}})
+	}
 	// ---- (2) the real caching client vs an uncached client on an unchanging chain
 	chain := simnode.NewChain(12, simnode.GenOpts{Salt: 5 + e.Seed%4})
 	node := simnode.NewNode(chain)
@@ -206,6 +269,45 @@ func runC08(e *core.Env) error {
 			bs[i].Unlock()
 		}
 		return strings.Join(out, "|")
+	}
+	// ---- (2a) different filters on the same cached range whose logs interleave by index inside ONE
+	// transaction (A: indexes 0,2 - B: indexes 1,3 of every transaction), both request orders
+	{
+		addrA, addrB := simnode.Derive("ilvA")[:20], simnode.Derive("ilvB")[:20]
+		ch := simnode.NewChain(6, simnode.GenOpts{Salt: 77 + e.Seed%3, MakeTx: func(salt, num, idx uint64, tx *simnode.Tx) {
+			simnode.DefaultMakeTx(salt, num, idx, tx)
+			tx.Logs = nil
+			for j := uint64(0); j < 4; j++ {
+				a := addrA
+				if j%2 == 1 {
+					a = addrB
+				}
+				tx.Logs = append(tx.Logs, simnode.Log{Idx: 4*idx + j, Addr: a, Topics: [][]byte{simnode.Derive("t", salt, num, idx, j)}, Data: simnode.Derive("d", salt, num, idx, j)})
+			}
+		}})
+		nd := simnode.NewNode(ch)
+		fA, fB := fmt.Sprintf("0x%x", addrA), fmt.Sprintf("0x%x", addrB)
+		for _, order := range [][]string{{fA, fB}, {fB, fA}, {fA, fB, fA}, {fB, fB, fA}} {
+			for _, fields := range [][]string{{"block_time", "log_idx"}, {"tx_input", "log_idx"}} {
+				cached := jrpc2.New(nd.URL()).WithMaxReads(10).WithPollDuration(time.Hour)
+				plain := jrpc2.New(nd.URL() + "/nocache")
+				verdict := "ok"
+				for _, a := range order {
+					flt := glf.New(fields, []string{a}, nil)
+					cb, cerr := cached.Get(ctx, nd.URL(), flt, 1, 3)
+					pb, perr := plain.Get(ctx, nd.URL()+"/nocache", flt, 1, 3)
+					if cerr != nil || perr != nil {
+						verdict = fmt.Sprintf("unexpected error %v %v", cerr, perr)
+						break
+					}
+					if got, want := digestFor(cb, flt), digestFor(pb, flt); got != want && verdict == "ok" {
+						verdict = fmt.Sprintf("filter %s after %v: cached client returned %s, uncached %s", a, order, trunc2(got), trunc2(want))
+					}
+				}
+				e.Add(core.Case{Impl: verdict, Spec: "ok", Key: fmt.Sprintf("interleaved %v %v", order, fields), Nontrivial: true, Tags: []string{"client-interleaved-filters"}})
+			}
+		}
+		nd.Close()
 	}
 	for s := 0; s < e.N(25, 300); s++ {
 		rr := r.Fork()
